@@ -13,8 +13,8 @@ from hgv.worker import HarnessError, Rejected
 
 ID = "C11"
 ASAN_THOROUGH = True   # thorough tier runs against the AddressSanitizer build
-RULE = ("reduce(C, coll[, zero]) with an associative-commutative combiner C (a two-input harness node computing +, max or xor, or a "
-        "two-node sub-graph computing the same) over (a) a scripted TSD[int,TS[int]] with adds, updates, removes, several per cycle, "
+RULE = ("reduce(C, coll[, zero]) with an associative-commutative combiner C (a two-input harness node computing +, max or xor, a "
+        "two-node sub-graph computing the same, or the library operator add_/max_/min_/bit_xor itself) over (a) a scripted TSD[int,TS[int]] with adds, updates, removes, several per cycle, "
         "shrink to empty and regrow, bursts crossing 1/2/4/8/16/32 live keys, or (b) a fixed TSL[TS[int],n] whose elements become valid "
         "at different times; with and without a zero that is NOT the combiner's identity. The result endpoint is read at every cycle in "
         "which the collection or the result ticked and must equal the fold of the currently valid elements (invalid when empty and no "
@@ -24,7 +24,8 @@ RULE = ("reduce(C, coll[, zero]) with an associative-commutative combiner C (a t
 ASSUMPTIONS = ["same-cycle erase + re-write of one key is not generated (F6/F7 are owned by C05)",
                "intermediate aggregates inside a cycle are not constrained: values are read at the end of the combiner's evaluation"]
 
-OPS = {"sum": lambda a, b: a + b, "max": max, "xor": lambda a, b: a ^ b}
+OPS = {"sum": lambda a, b: a + b, "max": max, "xor": lambda a, b: a ^ b, "min": min}
+LIB = {"sum": "add_", "max": "max_", "xor": "bit_xor", "min": "min_"}   # the library's own binary operators as combiners
 
 
 def examples(tier):
@@ -42,6 +43,11 @@ def case(draw, tier):
     horizon = draw(st.integers(4, 40 if big else 18))
     comb = draw(st.sampled_from(["sum", "sum", "max", "xor"]))
     two_node = draw(st.integers(0, 3)) == 0
+    # the combiner is a harness node, a two-node sub-graph, or the library operator itself (a static node behind the
+    # operator registry)
+    lib = (not two_node) and draw(st.integers(0, 2)) == 0
+    if lib and draw(st.booleans()):
+        comb = "min"
     zero = draw(st.sampled_from([None, None, 1000, 7, 0]))
     kind = draw(st.sampled_from(["TSD", "TSD", "TSD", "TSL", "DTSL"]))
     if kind == "TSD":
@@ -62,7 +68,7 @@ def case(draw, tier):
     else:
         n = draw(st.integers(1, 6 if big else 4))
         script = draw(tm.history(("TSL", ("TS", "int"), n), start, horizon, {"multi": True}, max_cycles=12 if big else 7))
-    return {"start": start, "end": start + horizon, "comb": comb, "two_node": two_node, "zero": zero, "kind": kind, "n": n, "script": script}
+    return {"start": start, "end": start + horizon, "comb": comb, "two_node": two_node, "lib": lib, "zero": zero, "kind": kind, "n": n, "script": script}
 
 
 def strategy(tier):
@@ -76,6 +82,9 @@ def check(case, ctx) -> Result:
         C = {"params": ["TS[int]", "TS[int]"], "names": ["lhs", "rhs"], "out": "TS[int]", "ret": "c1", "stmts": [
             {"id": "c0", "op": "node", "ins": [{"arg": 0}], "out": "TS[int]", "fn": "sum", "log_inputs": False},
             {"id": "c1", "op": "node", "ins": ["c0", {"arg": 1}], "out": "TS[int]", "fn": comb, "log_inputs": False}]}
+    elif case.get("lib"):
+        C = {"params": ["TS[int]", "TS[int]"], "names": ["lhs", "rhs"], "out": "TS[int]", "ret": "c",
+             "stmts": [{"id": "c", "op": "op", "name": LIB[comb], "args": [{"ts": {"arg": 0}}, {"ts": {"arg": 1}}], "has_out": True}]}
     else:
         C = {"params": ["TS[int]", "TS[int]"], "names": ["lhs", "rhs"], "out": "TS[int]", "ret": "c",
              "stmts": [{"id": "c", "op": "node", "ins": [{"arg": 0}, {"arg": 1}], "out": "TS[int]", "fn": comb, "log_inputs": False}]}
@@ -162,6 +171,8 @@ def check(case, ctx) -> Result:
     res.labels.append("with_zero" if zero is not None else "no_zero")
     if case["two_node"]:
         res.labels.append("subgraph_combiner")
+    if case.get("lib"):
+        res.labels.append("library_operator_combiner")
     if prev_live >= 9:
         res.labels.append("nine_plus_live_at_end")
     res.summary = {"ticks_seen": sorted(seen)[:20], "comb": comb, "zero": zero}
